@@ -345,23 +345,57 @@ type cincBind[T cnum] struct {
 }
 
 var cinc128 = map[string][]cincBind[complex128]{
-	"CAxpy":  {{"blas.Zaxpy", func(n int, a complex128, x []complex128, ix int, y []complex128, iy int) (complex128, float64) { bl.Zaxpy(n, a, x, ix, y, iy); return 0, 0 }}},
-	"CDotu":  {{"blas.Zdotu", func(n int, a complex128, x []complex128, ix int, y []complex128, iy int) (complex128, float64) { return bl.Zdotu(n, x, ix, y, iy), 0 }}},
-	"CDotc":  {{"blas.Zdotc", func(n int, a complex128, x []complex128, ix int, y []complex128, iy int) (complex128, float64) { return bl.Zdotc(n, x, ix, y, iy), 0 }}},
-	"CScal":  {{"blas.Zscal", func(n int, a complex128, x []complex128, ix int, y []complex128, iy int) (complex128, float64) { bl.Zscal(n, a, x, ix); return 0, 0 }}},
-	"CDscal": {{"blas.Zdscal", func(n int, a complex128, x []complex128, ix int, y []complex128, iy int) (complex128, float64) { bl.Zdscal(n, real(a), x, ix); return 0, 0 }}},
-	"CAsum":  {{"blas.Dzasum", func(n int, a complex128, x []complex128, ix int, y []complex128, iy int) (complex128, float64) { return 0, bl.Dzasum(n, x, ix) }}},
-	"CNrm2":  {{"blas.Dznrm2", func(n int, a complex128, x []complex128, ix int, y []complex128, iy int) (complex128, float64) { return 0, bl.Dznrm2(n, x, ix) }}},
+	"CAxpy": {{"blas.Zaxpy", func(n int, a complex128, x []complex128, ix int, y []complex128, iy int) (complex128, float64) {
+		bl.Zaxpy(n, a, x, ix, y, iy)
+		return 0, 0
+	}}},
+	"CDotu": {{"blas.Zdotu", func(n int, a complex128, x []complex128, ix int, y []complex128, iy int) (complex128, float64) {
+		return bl.Zdotu(n, x, ix, y, iy), 0
+	}}},
+	"CDotc": {{"blas.Zdotc", func(n int, a complex128, x []complex128, ix int, y []complex128, iy int) (complex128, float64) {
+		return bl.Zdotc(n, x, ix, y, iy), 0
+	}}},
+	"CScal": {{"blas.Zscal", func(n int, a complex128, x []complex128, ix int, y []complex128, iy int) (complex128, float64) {
+		bl.Zscal(n, a, x, ix)
+		return 0, 0
+	}}},
+	"CDscal": {{"blas.Zdscal", func(n int, a complex128, x []complex128, ix int, y []complex128, iy int) (complex128, float64) {
+		bl.Zdscal(n, real(a), x, ix)
+		return 0, 0
+	}}},
+	"CAsum": {{"blas.Dzasum", func(n int, a complex128, x []complex128, ix int, y []complex128, iy int) (complex128, float64) {
+		return 0, bl.Dzasum(n, x, ix)
+	}}},
+	"CNrm2": {{"blas.Dznrm2", func(n int, a complex128, x []complex128, ix int, y []complex128, iy int) (complex128, float64) {
+		return 0, bl.Dznrm2(n, x, ix)
+	}}},
 }
 
 var cinc64 = map[string][]cincBind[complex64]{
-	"CAxpy":  {{"blas.Caxpy", func(n int, a complex64, x []complex64, ix int, y []complex64, iy int) (complex128, float64) { bl.Caxpy(n, a, x, ix, y, iy); return 0, 0 }}},
-	"CDotu":  {{"blas.Cdotu", func(n int, a complex64, x []complex64, ix int, y []complex64, iy int) (complex128, float64) { return complex128(bl.Cdotu(n, x, ix, y, iy)), 0 }}},
-	"CDotc":  {{"blas.Cdotc", func(n int, a complex64, x []complex64, ix int, y []complex64, iy int) (complex128, float64) { return complex128(bl.Cdotc(n, x, ix, y, iy)), 0 }}},
-	"CScal":  {{"blas.Cscal", func(n int, a complex64, x []complex64, ix int, y []complex64, iy int) (complex128, float64) { bl.Cscal(n, a, x, ix); return 0, 0 }}},
-	"CDscal": {{"blas.Csscal", func(n int, a complex64, x []complex64, ix int, y []complex64, iy int) (complex128, float64) { bl.Csscal(n, real(a), x, ix); return 0, 0 }}},
-	"CAsum":  {{"blas.Scasum", func(n int, a complex64, x []complex64, ix int, y []complex64, iy int) (complex128, float64) { return 0, float64(bl.Scasum(n, x, ix)) }}},
-	"CNrm2":  {{"blas.Scnrm2", func(n int, a complex64, x []complex64, ix int, y []complex64, iy int) (complex128, float64) { return 0, float64(bl.Scnrm2(n, x, ix)) }}},
+	"CAxpy": {{"blas.Caxpy", func(n int, a complex64, x []complex64, ix int, y []complex64, iy int) (complex128, float64) {
+		bl.Caxpy(n, a, x, ix, y, iy)
+		return 0, 0
+	}}},
+	"CDotu": {{"blas.Cdotu", func(n int, a complex64, x []complex64, ix int, y []complex64, iy int) (complex128, float64) {
+		return complex128(bl.Cdotu(n, x, ix, y, iy)), 0
+	}}},
+	"CDotc": {{"blas.Cdotc", func(n int, a complex64, x []complex64, ix int, y []complex64, iy int) (complex128, float64) {
+		return complex128(bl.Cdotc(n, x, ix, y, iy)), 0
+	}}},
+	"CScal": {{"blas.Cscal", func(n int, a complex64, x []complex64, ix int, y []complex64, iy int) (complex128, float64) {
+		bl.Cscal(n, a, x, ix)
+		return 0, 0
+	}}},
+	"CDscal": {{"blas.Csscal", func(n int, a complex64, x []complex64, ix int, y []complex64, iy int) (complex128, float64) {
+		bl.Csscal(n, real(a), x, ix)
+		return 0, 0
+	}}},
+	"CAsum": {{"blas.Scasum", func(n int, a complex64, x []complex64, ix int, y []complex64, iy int) (complex128, float64) {
+		return 0, float64(bl.Scasum(n, x, ix))
+	}}},
+	"CNrm2": {{"blas.Scnrm2", func(n int, a complex64, x []complex64, ix int, y []complex64, iy int) (complex128, float64) {
+		return 0, float64(bl.Scnrm2(n, x, ix))
+	}}},
 }
 
 func runCInc(r *runner, c *pcase) {
